@@ -41,7 +41,10 @@ pub(crate) struct State {
     pub(crate) run_on_update_handlers: RefCell<Vec<(WeakNode, NodeUpdateDelayed)>>,
     pub(crate) handle_after_stabilisation: RefCell<Vec<WeakNode>>,
     pub(crate) new_observers: RefCell<Vec<WeakObserver>>,
+    #[cfg(not(cormacrelf_incremental_rs_verif))]
     pub(crate) all_observers: RefCell<HashMap<ObserverId, StrongObserver>>,
+    #[cfg(cormacrelf_incremental_rs_verif)]
+    pub(crate) all_observers: RefCell<crate::verif_audit::DetHashMap<ObserverId, StrongObserver>>,
     pub(crate) disallowed_observers: RefCell<Vec<WeakObserver>>,
     pub(crate) current_scope: RefCell<Scope>,
     pub(crate) set_during_stabilisation: RefCell<Vec<WeakVar>>,
@@ -141,7 +144,10 @@ impl State {
             num_active_observers: Cell::new(0),
             propagate_invalidity: RefCell::new(vec![]),
             status: Cell::new(IncrStatus::NotStabilising),
+            #[cfg(not(cormacrelf_incremental_rs_verif))]
             all_observers: RefCell::new(HashMap::new()),
+            #[cfg(cormacrelf_incremental_rs_verif)]
+            all_observers: RefCell::new(Default::default()),
             new_observers: RefCell::new(Vec::new()),
             disallowed_observers: RefCell::new(Vec::new()),
             current_scope: RefCell::new(Scope::Top),
